@@ -73,15 +73,26 @@ Definition model_trace (n : nat) (specs : list (@spec pv)) (user_init : bool) (f
                    fixed n_outer n_inner PvRaw
   else Err.
 
+(* admm called on its own (n_const = 1, order = 0): provenance of the returned primal variable *)
+Definition model_admm (specs : list (@spec pv)) (n_iter : nat) : res prov :=
+  if Nat.eqb (length specs) 12 then
+    rbind (admm (fun _ _ => PvRaw) (fun _ _ => PvRaw) n_iter (fun _ _ => PvRaw) (fun _ _ _ _ => false)
+                (proximal_operator pv_truthy (fun k p _ => PvOp k p) 1 (with_names specs) 0) (PvUser 0) PvRaw)
+          (fun r => Ok (fst (fst r)))
+  else Err.
+
 Inductive case :=
 | CTable (id n : nat) (specs : list (@spec pv)) (expected : res (list (option (kind * pv))))
 | CTrace (id n : nat) (specs : list (@spec pv)) (user_init : bool) (fixed : list nat) (n_outer n_inner : nat)
-         (expected : res (list prov)).
+         (expected : res (list prov))
+| CAdmm (id : nat) (specs : list (@spec pv)) (n_iter : nat) (expected : res prov).
 
 Definition agree (c : case) : bool :=
   match c with
   | CTable _ n specs expected => res_eqb (list_eqb entry_eqb) (model_table n specs) expected
   | CTrace _ n specs ui fixed no ni expected => res_eqb (list_eqb prov_eqb) (model_trace n specs ui fixed no ni) expected
+  | CAdmm _ specs ni expected => res_eqb prov_eqb (model_admm specs ni) expected
   end.
-Definition ident (c : case) : nat := match c with CTable i _ _ _ => i | CTrace i _ _ _ _ _ _ _ => i end.
+Definition ident (c : case) : nat :=
+  match c with CTable i _ _ _ => i | CTrace i _ _ _ _ _ _ _ => i | CAdmm i _ _ _ => i end.
 Definition failing := failing_ids agree ident.
